@@ -884,8 +884,15 @@ def run(ctx):
         f = stm.functions.get(fname)
         if f is None:
             raise AnalysisError(f"{fname} missing")
-        u = f.nested.get("undefined_check_strategy")
-        ok, detail = False, "no undefined_check_strategy fallback"
+        # the fallback helper, found by role: a nested or module-level function called from here that takes the check and
+        # returns `<strategy>.filter(...)`
+        called_names = {c.func.id for g_ in [f] + list(f.nested.values()) for c in calls_in(g_.node) if isinstance(c.func, ast.Name)}
+        cands = [h for h in list(f.nested.values()) + [stm.functions[n_] for n_ in sorted(called_names) if n_ in stm.functions]
+                 if "check" in h.params and any(isinstance(r_, ast.Return) and isinstance(r_.value, ast.Call) and isinstance(r_.value.func, ast.Attribute)
+                                                and r_.value.func.attr == "filter" for r_ in function_stmts(h))]
+        u = cands[0] if cands else None
+        uname = u.name if u is not None else "undefined_check_strategy"
+        ok, detail = False, "no fallback that filters the drawn object by the check"
         if u is not None:
             rets = [s for s in function_stmts(u) if isinstance(s, ast.Return) and s.value is not None]
             filt = [r for r in rets if isinstance(r.value, ast.Call) and isinstance(r.value.func, ast.Attribute) and r.value.func.attr == "filter"]
@@ -903,9 +910,9 @@ def run(ctx):
                             todo += [n.id for n in ast.walk(st_.value) if isinstance(n, ast.Name)]
                 return seen
             uses_check = bool(filt) and all(any("check" in closure_names(a_) for a_ in r.value.args) for r in filt)
-            called = [c for c in calls_in(f.node) if isinstance(c.func, ast.Name) and c.func.id == "undefined_check_strategy"]
+            called = [c for c in calls_in(f.node) if isinstance(c.func, ast.Name) and c.func.id == uname]
             for g in f.nested.values():
-                called += [c for c in calls_in(g.node) if isinstance(c.func, ast.Name) and c.func.id == "undefined_check_strategy"]
+                called += [c for c in calls_in(g.node) if isinstance(c.func, ast.Name) and c.func.id == uname]
             ok = bool(filt) and len(filt) == len(rets) and uses_check and bool(called)
             detail = (f"fallback filters by the check itself; {len(called)} call site(s)" if ok else
                       f"returns={len(rets)}, filtering returns={len(filt)}, uses check={uses_check}, call sites={len(called)}")
